@@ -12,8 +12,8 @@
 import Rva.Model.Pipeline
 namespace Rva
 
-/-- the sort key of `DiagnosticItem::cmp`: file, then start offset, then end offset -/
-def Diag.key (d : Diag) : Nat × Nat × Nat := (d.file, d.range.start.raw, d.range.stop.raw)
+/-- the sort key: rank of the file by name, then start offset, then end offset -/
+def Diag.key (d : Diag) : Nat × Nat × Nat := (d.frank, d.range.start.raw, d.range.stop.raw)
 
 def keyLt (a b : Nat × Nat × Nat) : Prop :=
   a.1 < b.1 ∨ (a.1 = b.1 ∧ (a.2.1 < b.2.1 ∨ (a.2.1 = b.2.1 ∧ a.2.2 < b.2.2)))
